@@ -250,6 +250,8 @@ where
     #[inline]
     fn next(&mut self) -> Option<Result<Token, Token::Error>> {
         self.token_start = self.token_end;
+        #[cfg(feature = "verif_hooks")]
+        crate::verif::record(crate::verif::Event::Next(self.token_start));
 
         Token::lex(self)
     }
@@ -324,6 +326,8 @@ where
     where
         Chunk: source::Chunk<'source>,
     {
+        #[cfg(feature = "verif_hooks")]
+        crate::verif::record(crate::verif::Event::Read(offset, Chunk::SIZE));
         self.source.read(offset)
     }
 
@@ -331,6 +335,8 @@ where
     #[inline]
     fn trivia(&mut self) {
         self.token_start = self.token_end;
+        #[cfg(feature = "verif_hooks")]
+        crate::verif::record(crate::verif::Event::Restart(self.token_start));
     }
 
     /// Set the current token to appropriate `#[error]` variant.
